@@ -61,6 +61,12 @@ func TestC06(t *testing.T) {
 			c.Labels = append(c.Labels, addCancelTrigger(rt, c))
 			sum, depth := closureSum(c)
 			c.WatchdogMs = int(5000*int64(1+depth)+sum) + 12000
+			for src, d := range c.Script.Deploys {
+				if d.DelayMs == 30000 { // deploy-held-long: longer than the bound, shorter than the watchdog
+					d.DelayMs = int(5000*int64(1+depth)+sum) + 6000
+					c.Script.Deploys[src] = d
+				}
+			}
 			return c
 		},
 		func(st *Stats, c *vcase.Case) string {
